@@ -147,3 +147,23 @@ Definition lines_cover (g : pghost) (root : N) : bool :=
 
 Definition nodes_keyed (g : pghost) (nk : list (N * pgkey)) : bool :=
   forallb (fun n => existsb (fun e => N.eqb (fst e) n) nk) (live_nodes g).
+
+(** ** well-formed hosts (what a PortGraph guarantees): links join existing ports,
+    every port carries at most one link *)
+Definition pg_host_wfb (h : pghost) : bool :=
+  forallb (fun l => let '(a, oa, b, ib) := l in has_port h a (POut oa) && has_port h b (PIn ib)) (pg_links h)
+  && nodupb (fun x y => N.eqb (fst x) (fst y) && N.eqb (snd x) (snd y)) (map (fun l => let '(a, oa, _, _) := l in (a, oa)) (pg_links h))
+  && nodupb (fun x y => N.eqb (fst x) (fst y) && N.eqb (snd x) (snd y)) (map (fun l => let '(_, _, b, ib) := l in (b, ib)) (pg_links h)).
+
+(** the keys given to the nodes are pairwise different, and so are the nodes *)
+Definition keys_distinct (nk : list (N * pgkey)) : bool :=
+  nodupb pgkey_eqb (map snd nk) && nodupb N.eqb (map fst nk).
+
+(** every link on a line is a link of the graph (read from either end) *)
+Definition is_link (g : pghost) (l : plink) : bool :=
+  match snd (fst l), snd (snd l) with
+  | POut o, PIn i => existsb (fun x => let '(a, oa, b, ib) := x in N.eqb a (fst (fst l)) && N.eqb oa o && N.eqb b (fst (snd l)) && N.eqb ib i) (pg_links g)
+  | PIn i, POut o => existsb (fun x => let '(a, oa, b, ib) := x in N.eqb a (fst (snd l)) && N.eqb oa o && N.eqb b (fst (fst l)) && N.eqb ib i) (pg_links g)
+  | _, _ => false
+  end.
+Definition lines_sound (g : pghost) (root : N) : bool := forallb (is_link g) (concat (line_partition g root)).
